@@ -484,6 +484,14 @@ class SimWorld:
                 self.track(release, op["id"] + ".rel", op["res"], "release", name, op["id"])
                 yield release
                 self.log(name, "release.done", op["res"], op["id"])
+                if op.get("release_twice") is not None:
+                    # releasing is idempotent: a second release of the same request, given a
+                    # while later, takes nobody else's slot
+                    yield env.timeout(op["release_twice"])
+                    again = res.release(request)
+                    self.track(again, op["id"] + ".rel2", op["res"], "release", name, op["id"])
+                    yield again
+                    self.log(name, "release.done", op["res"], op["id"])
         else:
             raise ValueError(kind)
 
